@@ -138,6 +138,12 @@ def spellings(meta):
             first = quote(segs[0], safe="")
             out.append(("/" + "".join(f"%{b:02X}" for b in segs[0].encode()) + enc[len(first) + 1:], "encoded-segment", loc))
             out.append((enc + "?a=b&c=/app/public/", "query", loc))
+            # a query is not part of the location: dot segments, slashes and escapes in it change nothing
+            out.append((enc + "?x/../../../index.gmi", "query-dotdot", loc))
+            out.append((enc + "?/../" * 1 + "", "query-dotdot", loc))
+            out.append((enc + "?q=1/../../../../app/public/info.gmi", "query-dotdot", loc))
+            out.append((enc + "?%2e%2e/%2e%2e/%2e%2e/", "query-encoded-dotdot", loc))
+            out.append((enc + "??/../..", "query-dotdot", loc))
             out.append(("/%ff/.." + enc, "bad-escape-detour", loc))
             out.append(("/%80%80/.." + enc, "bad-escape-detour", loc))
             if len(segs) >= 2:
